@@ -292,6 +292,14 @@ STATE_FUNCTIONS = [
     ("automation/async_facade.py", "GeckoAsyncFacade._on_config_device_change"),
     ("async_tasks.py", "AsyncTasks.add_task"),
     ("async_tasks.py", "AsyncTasks.cancel_key_tasks"),
+    # the threaded engine: everything that touches the two handler lists or the counters
+    ("driver/udp_socket.py", "GeckoUdpSocket.add_receive_handler"),
+    ("driver/udp_socket.py", "GeckoUdpSocket.remove_receive_handler"),
+    ("driver/udp_socket.py", "GeckoUdpSocket.queue_send"),
+    ("driver/udp_socket.py", "GeckoUdpSocket.get_and_increment_sequence_counter"),
+    ("driver/udp_socket.py", "GeckoUdpSocket._process_send_requests"),
+    ("driver/udp_socket.py", "GeckoUdpSocket.dispatch_recevied_data"),
+    ("driver/udp_socket.py", "GeckoUdpSocket._cleanup_handlers"),
 ]
 
 
